@@ -506,6 +506,38 @@ def gen_tst_case(r, tier):
     return ops
 
 
+def gen_tmd_case(r, tier):
+    """profile `tmd`: timers registered through events_timer_register_double (whole seconds, exact in a double): near ones that
+    fire in deadline order with timeval-registered ones, and far ones -- up to 1.5e13 s, more than 2^63 us, the value a program
+    uses for "never" -- that must NOT run when the near ones do"""
+    g = G(r, "tmd")
+    ops = g.ops
+    near = []
+    for _ in range(r.range(1, 3)):
+        i = g.fresh()
+        ops.append("script %d 0 -" % i)
+        if r.chance(1, 2):
+            sec = r.choice([0, 1, 1, 2, 3])
+            ops.append("reg_tmd %d %d" % (i, sec))
+            near.append(sec * 1000000)
+        else:
+            u = r.choice([0, 1000, 999999, 1000000, 2500000])
+            ops.append("reg_tm %d %d" % (i, u))
+            near.append(u)
+    for _ in range(r.range(1, 2)):
+        i = g.fresh()
+        ops.append("script %d 0 -" % i)
+        ops.append("reg_tmd %d %d" % (i, r.choice([4300000000, 9223372036854, 9223372036855, 10 ** 13, 15 * 10 ** 12, 2147484])))
+    # the wake-up for the near timers, the look before each of them, then nothing more to do
+    ops.append("poll %d -" % (max(near) + r.choice([0, 1, 1000])))
+    for _ in range(len(near) + 1):
+        ops.append("poll 0 -")
+    ops.append("run")
+    ops.append("poll 1000 -")
+    ops.append("run")
+    return ops
+
+
 PROFILES = [("mixed", 30), ("net", 25), ("imm", 12), ("tm", 15), ("status", 18), ("far", 8)]
 # profile `tst` is generated on top of these (own PRNG forks: the cases of the other profiles stay what they were)
 TST_SHARE = 12      # one `tst` case per 12 others: 333 in the quick tier, 5000 in the thorough tier
@@ -519,6 +551,8 @@ def gen_events(rng, tier, mult):
         cases.append(gen_case(r, r.weighted(PROFILES), tier))
     for ci in range(n // TST_SHARE):
         cases.append(gen_tst_case(rng.fork("tst%d" % ci), tier))
+    for ci in range(n // 80):
+        cases.append(gen_tmd_case(rng.fork("tmd%d" % ci), tier))
     return cases
 
 
